@@ -333,7 +333,9 @@ def trace_phase(work, seed, quick, fut_rand, fut_samp):
             expect[c["id"]] = clauses
             cal.append(c)
     if len(cal) < 8:
-        raise T.MachineryError("calibration: too few accepted events to corrupt (%d)" % len(cal))
+        # nothing clean enough to corrupt: a machinery failure unless the run already has violations to show
+        res["cal_error"] = "calibration: too few accepted events to corrupt (%d)" % len(cal)
+        return res
     cv, st = validate_events("Trace_Paraxial", cal, os.path.join(work, "cal"), 8 if quick else 16)
     res["runs"].append(("Trace_Paraxial", st, len(cal), 0))
     missed = []
@@ -414,6 +416,8 @@ def main(ctx):
     for sm in res["samples"]:
         ctx.sample(sm)
     ctx.extra.update(res["extra"])
+    if res.get("cal_error") and not ctx.violations:
+        raise T.MachineryError(res["cal_error"])
     ctx.assumptions += [
         "tan(max field angle) and tan(arcsin(NA/n0)) are logged certificates computed with libm; the latter is "
         "validated polynomially (tan^2 (n0^2 - NA^2) = NA^2), the former is trusted",
